@@ -4,6 +4,7 @@
 import PsProofs.IterRun
 import PsProofs.MaxPrime
 import PsModel.Generated.Locks
+import PsProofs.Wheel
 
 namespace Ps.Props
 open Ps Ps.Spec
@@ -76,6 +77,49 @@ theorem C10_checkedAdd (x y : Nat) :
 /-- **C10** `checkedSub` saturates at 0 instead of wrapping -/
 theorem C10_checkedSub (x y : Nat) : checkedSub x y = x - y := by
   rcases checkedSub_cases x y with h | h <;> omega
+
+/-- **C10 (sieve core: failure instead of wrap)** Wheel::addSievingPrime on the regenerated INIT tables, for EVERY sieving prime
+    p < 2^32 coprime to 30 (sieving primes are ≤ √stop), every segment start L ≡ 0 (mod 30) with L + 6 < 2^64
+    and every stop < 2^64 — in particular segments ending at 2^64 - 1, where p·q exceeds 2^64:
+    (1) computed with wrapping uint64_t arithmetic it returns exactly what it returns over unbounded
+    integers (the guard `multiple < segmentLow` catches every wrapped product, the second guard is only
+    evaluated when it cannot underflow);
+    (2) if it stores the prime, the stored state denotes p·q for the LEAST q ≥ max(p, ⌊(L+6)/p⌋+1) coprime
+    to the wheel modulus, and p·q ≤ stop;
+    (3) if it drops the prime, every admissible multiple of p above the segment start exceeds stop. -/
+theorem C10_addSievingPrime_no_wrap (stop p L : Nat) (hp : Nat.gcd (p % 30) 30 = 1) (hp0 : 0 < p) (hp32 : p < 4294967296)
+    (hL : L % 30 = 0) (hL6 : L + 6 < U64) (hstop : stop < U64) :
+    (Wheel.addSievingPrime 30 8 Gen.wheel30Init stop p L = Wheel.addSievingPrimeExact 30 8 Gen.wheel30Init stop p L ∧
+     Wheel.addSievingPrime 210 48 Gen.wheel210Init stop p L = Wheel.addSievingPrimeExact 210 48 Gen.wheel210Init stop p L) ∧
+    (∀ s, Wheel.addSievingPrime 210 48 Gen.wheel210Init stop p L = some s →
+      ∃ q, Wheel.Denotes 210 L s q ∧ max p ((L + 6) / p + 1) ≤ q ∧ p * q ≤ stop ∧
+        (∀ x, max p ((L + 6) / p + 1) ≤ x → x < q → Nat.gcd x 210 ≠ 1)) ∧
+    (∀ s, Wheel.addSievingPrime 30 8 Gen.wheel30Init stop p L = some s →
+      ∃ q, Wheel.Denotes 30 L s q ∧ max p ((L + 6) / p + 1) ≤ q ∧ p * q ≤ stop ∧
+        (∀ x, max p ((L + 6) / p + 1) ≤ x → x < q → Nat.gcd x 30 ≠ 1)) ∧
+    (Wheel.addSievingPrime 210 48 Gen.wheel210Init stop p L = none →
+      ∀ x, max p ((L + 6) / p + 1) ≤ x → Nat.gcd x 210 = 1 → stop < p * x) ∧
+    (Wheel.addSievingPrime 30 8 Gen.wheel30Init stop p L = none →
+      ∀ x, max p ((L + 6) / p + 1) ≤ x → Nat.gcd x 30 = 1 → stop < p * x) := by
+  have e30 := Wheel.addSievingPrime_eq_exact 30 8 Gen.wheel30Init Wheel.init_le_10.1 stop p L hp0 hp32 hL6 hstop
+  have e210 := Wheel.addSievingPrime_eq_exact 210 48 Gen.wheel210Init Wheel.init_le_10.2 stop p L hp0 hp32 hL6 hstop
+  refine ⟨⟨e30, e210⟩, ?_, ?_, ?_, ?_⟩
+  · intro s h
+    rw [e210] at h
+    obtain ⟨q, h1, h2, h3, h4, _⟩ := Wheel.addSievingPrimeExact_spec 210 48 Gen.wheel210Init (by decide) (by decide)
+      Wheel.cls210_len (by decide) Wheel.wheel210Init_spec Wheel.init210_ok Wheel.bit210_ok stop p L hp hp0 hL s h
+    exact ⟨q, h1, h2, h3, h4⟩
+  · intro s h
+    rw [e30] at h
+    obtain ⟨q, h1, h2, h3, h4, _⟩ := Wheel.addSievingPrimeExact_spec 30 8 Gen.wheel30Init (by decide) (by decide)
+      (by decide +kernel) (by decide) Wheel.wheel30Init_spec Wheel.init30_ok Wheel.bit30_ok stop p L hp hp0 hL s h
+    exact ⟨q, h1, h2, h3, h4⟩
+  · intro h x hx hg
+    rw [e210] at h
+    exact Wheel.addSievingPrimeExact_none 210 48 Gen.wheel210Init (by decide) Wheel.wheel210Init_spec Wheel.init210_ok stop p L h x hx hg
+  · intro h x hx hg
+    rw [e30] at h
+    exact Wheel.addSievingPrimeExact_none 30 8 Gen.wheel30Init (by decide) Wheel.wheel30Init_spec Wheel.init30_ok stop p L h x hx hg
 
 /-- **C10 (model sources)** regenerated on every run: digests of the (comment-, hook- and whitespace-normalised) bodies of the
     functions that the hand-written model behind the theorems of this file mirrors.  An edit to one of
